@@ -6,6 +6,7 @@ from __future__ import annotations
 from mc import core, devs, graph, par
 from mc import hdlcx as X
 from mc.props import C01
+from mc.ref import hdlc as RHm
 
 
 def observe(cfg, chunks):
@@ -149,7 +150,8 @@ def _work_variants(task) -> core.Part:
     for cfg in cfgs:
         ref = None
         for how, chunks in (("bytewise", X.bytewise(S)), ("fixed3", X.fixed(S, 3)), ("halves", X.split(S, (n // 2,))), ("oneshot", [S])):
-            for vname, early, final in X.feed_variants(lambda: X.new_reader(cfg), chunks, one):
+            tw = b"".join(b"\x7e" + RHm.wire(f, cfg[0]) + b"\x7e" for f in (X.frame_pool()["addr24"], X.frame_pool()["segbit"])) * 2
+            for vname, early, final in X.feed_variants(lambda: X.new_reader(cfg), chunks, one, twin_stream=tw):
                 p.add("executions")
                 p.add("events", len(chunks))
                 if ref is None:
